@@ -33,7 +33,7 @@ type c12box struct {
 func runC12(c *core.Ctx) {
 	p := c.P
 	c.Rule("R1", "single consumer: receives on the mailbox only in the run-loop method; exactly one `go run()` per constructed object, started only by the constructor", 4)
-	c.Rule("R2", "per received item exactly one synchronous invocation on every path of the loop body; no other receive in the body", 2)
+	c.Rule("R2", "per received item exactly one synchronous invocation on every path of the loop body; no other receive in the body; the loop ends only when the mailbox is found closed", 4)
 	c.Rule("R3", "actor identity (effect gets the receiver) and Post/Send = exactly one synchronous send of the argument on the not-closed path", 3)
 	c.Rule("R4", "Spawn: child built by the constructor; parent/children registered exactly on the parent-open edge", 1)
 	ops := core.ChanOps(p)
@@ -161,6 +161,14 @@ func runC12(c *core.Ctx) {
 				ex, isE := n.V.(*ssa.Extract)
 				return isE && ex.Tuple == ssa.Value(recv) && ex.Index == 1 && !n.True
 			}
+			// the loop ends only because the mailbox was closed and drained: no return is reachable without taking the
+			// "channel closed" edge (a loop that also stops on a flag drops what is still queued)
+			drains, early := core.MustPassBefore(run.Blocks[0].Instrs[0], func(ssa.Instruction) bool { return false }, func(ssa.Instruction) bool { return false }, closedCh)
+			where := ""
+			if early != nil {
+				where = p.InstrPos(early)
+			}
+			c.Check(drains, "R2", box.typ+"/drains-until-closed", p.Pos(run.Pos()), "the run loop returns only on the closed-channel edge of its receive", "the run loop can end ("+where+") without the mailbox having been found closed: messages accepted before Close that are still queued are never handled")
 			min, max := core.PathCountIterEdges(body, item.(ssa.Instruction), weight, closedCh)
 			c.Check(min == 1 && max == 1, "R2", box.typ+"/loop-body", p.InstrPos(item.(ssa.Instruction)), "received item processed exactly once per iteration by a direct call",
 				fmt.Sprintf("a received item is processed %d..%d times per iteration (0 = dropped on some path; >1 or 100 = duplicated or handed to a goroutine: not serial)", min, max))
